@@ -30,6 +30,10 @@ CHECKS = {
                      "the lexeme space: output parses, canonical token sequence and comments preserved, idempotent.",
                 note="canonical form treats order of use declarations / modifiers and optional trailing separators as "
                      "insignificant; behavioural equality is inferred from token equality"),
+    "C20": dict(level="model_checking", engine="lsmc", design="5/C20",
+                technique="explicit enumeration of all texts up to a bound x all offsets x all positions on the real position.rs, against an independent reference; symbol trees of the lexeme text space",
+                text="All 19 608 (137 257 thorough) texts over a, 2-/3-/4-byte characters, LF, CR, space up to length 5 (6): every boundary offset round-trips and agrees with an independent line/UTF-16 reference, every (line, character) incl. out-of-range ones maps into the document; symbol trees of ~10^5 (10^7) declaration texts and all repository files satisfy the containment rules and never panic.",
+                note="language-server modules mounted unchanged into the harness; mid-surrogate positions only required to stay on their line"),
     "C19": dict(level="model_checking", engine="seqmc", design="5/C19",
                 technique="explicit-state exploration (prefix-closed BFS over names) of the real mangler; cap sweep; label sets of emitted assembly",
                 text="All names up to length 4 (5 thorough) over a 16-symbol alphabet are mangled by the real function; "
